@@ -13,6 +13,7 @@ import GMGDriver.InputFnDrv
 import GMGDriver.FootDrv
 import GMGDriver.OwnerDrv
 import GMGDriver.SmCodeDrv
+import GMGDriver.CacheDrv
 
 def main (args : List String) : IO UInt32 := do
   match args with
@@ -33,6 +34,7 @@ def main (args : List String) : IO UInt32 := do
   | ["inputfn"] => InputFnDrv.main
   | ["foot"] => FootDrv.main
   | ["smcode"] => SmCodeDrv.main
+  | ["cache"] => CacheDrv.main
   | ["owner", a, b] => OwnerDrv.main a.toNat! b.toNat!
   | ["sched", a, b] => SchedDrv.main a.toNat! b.toNat!
   | _ => do
